@@ -230,9 +230,10 @@ def codec_models(chk, tier):
     """TLC on FoamCodec.tla / SefoCodec.tla; returns (node cases, field kinds to reach, type-expression shapes)."""
     quick = tier == "quick"
     with concurrent.futures.ThreadPoolExecutor(max_workers=5) as ex:
-        ff = ex.submit(vlib.tlc, "FoamCodec", "FoamCodec", workers=2, timeout=600, coverage=True)
+        # no -coverage here: with the recursive readers its bookkeeping makes these runs 100 times slower (3 s -> 450 s)
+        ff = ex.submit(vlib.tlc, "FoamCodec", "FoamCodec", workers=2, timeout=600)
         fa = ex.submit(vlib.tlc, "FoamCodec", "FoamCodecAsWritten", workers=1, timeout=600)
-        fs = ex.submit(vlib.tlc, "SefoCodec", "SefoCodec", workers=2, timeout=600, coverage=True)
+        fs = ex.submit(vlib.tlc, "SefoCodec", "SefoCodec", workers=2, timeout=600)
         fd = ex.submit(vlib.tlc, "FoamCodec", "FoamCodecDeep", workers=2, timeout=1200) if not quick else None
         fx = ex.submit(vlib.tlc, "SefoCodec", "SefoCodecSharp", workers=1, timeout=600) if not quick else None
         rf, ra, rs = ff.result(), fa.result(), fs.result()
@@ -244,12 +245,11 @@ def codec_models(chk, tier):
         chk.add_tlc(name, r)
         if r.violated:
             chk.violation("%s.tla violates %s" % (name.replace("Deep", ""), r.violated), r.trace_text, key={"model": name, "inv": r.violated})
-    for act in ("Choose", "Write", "Read", "ExportCase"):
-        if rf.coverage.get(act, (0, 0))[0] == 0:
-            raise vlib.MachineryError("FoamCodec.tla: action %s never taken" % act)
-    for act in ("Write", "IndexA", "Fetch"):
-        if rs.coverage.get(act, (0, 0))[0] == 0:
-            raise vlib.MachineryError("SefoCodec.tla: action %s never taken" % act)
+    # every case goes pick -> chosen -> written -> read (-> done): the diameter tells that the readers were run
+    if (rf.diameter or 0) < 5 or rf.distinct < 4000:
+        raise vlib.MachineryError("FoamCodec.tla: %s distinct states, diameter %s: the machine did not run through" % (rf.distinct, rf.diameter))
+    if (rs.diameter or 0) < 4 or rs.distinct < 300:
+        raise vlib.MachineryError("SefoCodec.tla: %s distinct states, diameter %s: the machine did not run through" % (rs.distinct, rs.diameter))
     # the transcription of foamTagFormat without the exemptions: which tags get an inadmissible format (information; the
     # real routine is judged by the replay below)
     if ra.error:
